@@ -119,6 +119,8 @@ class Alphabet:
             ("cmp", "time", (), ">=", t[2].astimezone(_dt.timezone(_dt.timedelta(hours=5, minutes=45)))),
             ("test", "time", (), "gt", (t[1],)),
             ("test", "time", (("map", "second"),), "is_even", ()),
+            ("cmp", "time", (("map", "plus_1s"),), "==", t[2]),       # a mapped time compared with a datetime
+            ("cmp", "time", (("map", "plus_1s"),), "<=", t[1]),
             ("noop", "time"),
         ]
         # measurement
